@@ -40,7 +40,31 @@ func newGameModel(c *Ctx, rule string) *gameModel {
 	}
 	// role-based anchors: the clock update is the function whose result initialises node.noprogress
 	// in PushMove; the exact repetition count is the *Board method called with (node, colour, int).
-	for _, blk := range g.push.Blocks {
+	// (PushMove itself or any *Board helper method it is split into)
+	family := []*ssa.Function{g.push}
+	inFamily := map[*ssa.Function]bool{g.push: true, g.pop: true}
+	for i := 0; i < len(family) && i < 8; i++ {
+		for _, blk := range family[i].Blocks {
+			for _, ins := range blk.Instrs {
+				if call, ok := ins.(*ssa.Call); ok {
+					f := call.Call.StaticCallee()
+					if f == nil || inFamily[f] || f.Blocks == nil || f.Signature.Recv() == nil || f.Pkg != g.push.Pkg {
+						continue
+					}
+					isCount := f.Signature.Results().Len() == 1 && types.Identical(f.Signature.Results().At(0).Type(), types.Typ[types.Int]) && f.Signature.Params().Len() == 3
+					if types.Identical(f.Signature.Recv().Type(), g.push.Signature.Recv().Type()) && !isCount {
+						inFamily[f] = true
+						family = append(family, f)
+					}
+				}
+			}
+		}
+	}
+	var blocks []*ssa.BasicBlock
+	for _, f := range family {
+		blocks = append(blocks, f.Blocks...)
+	}
+	for _, blk := range blocks {
 		for _, ins := range blk.Instrs {
 			if st, ok := ins.(*ssa.Store); ok {
 				if n, f, _, ok := addrField(st.Addr); ok && n.Obj().Name() == "node" && f == "noprogress" {
@@ -50,7 +74,7 @@ func newGameModel(c *Ctx, rule string) *gameModel {
 				}
 			}
 			if call, ok := ins.(*ssa.Call); ok {
-				if f := call.Call.StaticCallee(); f != nil && f.Signature.Recv() != nil && f != g.push && c.P.IsRepoFunc(f) {
+				if f := call.Call.StaticCallee(); f != nil && f.Signature.Recv() != nil && !inFamily[f] && c.P.IsRepoFunc(f) {
 					res := f.Signature.Results()
 					if res.Len() == 1 && types.Identical(res.At(0).Type(), types.Typ[types.Int]) && f.Signature.Params().Len() == 3 {
 						g.identCount = f
